@@ -240,6 +240,33 @@ func cnfSingletons() (*acSpec, error) {
 	}}, nil
 }
 
+// cnfPairs4: four holders, maximal unqualified sets = all six pairs (any three
+// holders are qualified). The induced MSP has six columns, more than holders
+// plus one: the dealer's random column is longer than the holder set.
+var cnfWideIDs = []sim.ID{7, 12, 300, 4000}
+
+func cnfPairs4() (*acSpec, error) {
+	var us [][]sim.ID
+	for a := 0; a < len(cnfWideIDs); a++ {
+		for b := a + 1; b < len(cnfWideIDs); b++ {
+			us = append(us, []sim.ID{cnfWideIDs[a], cnfWideIDs[b]})
+		}
+	}
+	lib, err := newCNF(us)
+	if err != nil {
+		return nil, err
+	}
+	return &acSpec{kind: "cnf", ids: sortedIDs(cnfWideIDs), lib: lib, nonIdeal: true, desc: fmt.Sprintf("cnf(max-unqualified %v)", us), qualified: func(s map[sim.ID]bool) bool {
+		c := 0
+		for _, id := range cnfWideIDs {
+			if s[id] {
+				c++
+			}
+		}
+		return c >= 3
+	}}, nil
+}
+
 func scenarioDKGSpec(name, proto string, mkSpec func() (*acSpec, error)) *c04Scenario {
 	s := &c04Scenario{name: name, only: []string{"dkg/"}, maxLeaves: 40}
 	s.canon = map[string]func([]byte) ([]byte, error){
@@ -259,9 +286,9 @@ func scenarioDKGSpec(name, proto string, mkSpec func() (*acSpec, error)) *c04Sce
 		if err != nil {
 			return c04Result{harnessErr: err}
 		}
-		pr := newC04Run(rc, adv)
+		pr := newC04RunIDs(rc, adv, spec.ids)
 		for _, ns := range []string{"A", "B"} {
-			for _, id := range c04IDs {
+			for _, id := range spec.ids {
 				sc := dkgScript(fmt.Sprintf("%s@%d", ns, id), id, spec, kit, proto, fiatshamir.Name, ns, partyRand(rc, id, ns+"/sess"), partyRand(rc, id, ns+"/proto"))
 				pr.start(sc)
 			}
@@ -270,10 +297,10 @@ func scenarioDKGSpec(name, proto string, mkSpec func() (*acSpec, error)) *c04Sce
 			pr.finish()
 			return c04Result{harnessErr: err}
 		}
-		res := c04Result{ends: collectEnds(pr, c04IDs, "A"), stats: pr.cl.Stats, trace: pr.cl.Trace, probes: pr.probes}
+		res := c04Result{ends: collectEnds(pr, spec.ids, "A"), stats: pr.cl.Stats, trace: pr.cl.Trace, probes: pr.probes}
 		pr.finish()
 		res.digest = map[sim.ID]string{}
-		for _, id := range c04IDs {
+		for _, id := range spec.ids {
 			e := res.ends[id]
 			if e.done && e.err == nil && e.panic == nil {
 				if b, err := serde.MarshalCBOR(e.out.(*mpc.BaseShard[*k256Point, *k256Scalar])); err == nil {
@@ -456,6 +483,7 @@ func init() {
 	c04Scenarios["gennaro"] = func() *c04Scenario { return scenarioDKG("gennaro") }
 	c04Scenarios["canetti"] = func() *c04Scenario { return scenarioDKG("canetti") }
 	c04Scenarios["gennaro-cnf"] = func() *c04Scenario { return scenarioDKGSpec("gennaro-cnf", "gennaro", cnfSingletons) }
+	c04Scenarios["gennaro-cnf-wide"] = func() *c04Scenario { return scenarioDKGSpec("gennaro-cnf-wide", "gennaro", cnfPairs4) }
 	c04Scenarios["lindell22-bip340"] = func() *c04Scenario {
 		sc := scenarioSign("lindell22-bip340", flavorL22BIP340, c04IDs, false, 40)
 		sc.canon = map[string]func([]byte) ([]byte, error){
